@@ -379,6 +379,76 @@ type txmcTrace struct {
 	RunOK     bool           `json:"runok"`
 }
 
+// txmBacklog: the tx processor is slower than the peers, so the manager's queue to it (1000 entries) is full
+// and hand-overs have to wait - then two peers deliver the same transaction at the same moment, then the
+// processor catches up.  Exactly one hand-over per transaction (C06), and nothing stays blocked.
+func txmBacklog(seed int64) string {
+	rng := rand.New(rand.NewSource(seed))
+	w := newTxmWorld()
+	w.p.gate = make(chan struct{})
+	a, b := w.node("n1"), w.node("n2")
+	hot := w.tx("t1") // relevant: must be saved exactly once too
+	other := w.tx("t2")
+	if rng.Intn(2) == 0 {
+		// announced first (solicited delivery), by one or both peers
+		w.m.AddTxID(w.ctx, a, *hot.TxHash())
+		if rng.Intn(2) == 0 {
+			w.m.AddTxID(w.ctx, b, *hot.TxHash())
+		}
+	}
+	var added int32
+	floodDone := make(chan struct{})
+	c := w.node("n3")
+	go func() {
+		defer close(floodDone)
+		for i := 0; i < 1003; i++ {
+			ftx := wire.NewMsgTx(1)
+			ftx.LockTime = uint32(900000 + i)
+			w.m.AddTx(w.ctx, w.intr, c, ftx)
+			atomic.AddInt32(&added, 1)
+		}
+	}()
+	// the flood stalls when the queue is full
+	last, stable := int32(-1), 0
+	for stable < 10 {
+		time.Sleep(2 * time.Millisecond)
+		if n := atomic.LoadInt32(&added); n != last {
+			last, stable = n, 0
+		} else {
+			stable++
+		}
+	}
+	var wg sync.WaitGroup
+	for _, n := range []uuid.UUID{a, b, a} {
+		wg.Add(1)
+		go func(n uuid.UUID) {
+			defer wg.Done()
+			time.Sleep(time.Duration(rng.Intn(200)) * time.Microsecond)
+			w.m.AddTx(w.ctx, w.intr, n, hot)
+		}(n)
+	}
+	wg.Add(1)
+	go func() { defer wg.Done(); w.m.AddTx(w.ctx, w.intr, b, other) }()
+	time.Sleep(time.Duration(2+rng.Intn(6)) * time.Millisecond)
+	close(w.p.gate)
+	finished := make(chan struct{})
+	go func() { wg.Wait(); <-floodDone; close(finished) }()
+	select {
+	case <-finished:
+	case <-time.After(10 * time.Second):
+		return "deliveries are still blocked 10 s after the tx processor caught up"
+	}
+	w.p.waitTotal(1003+2, 5*time.Second)
+	pr, sv, ok := w.finish()
+	if !ok {
+		return "the tx manager's Run did not end cleanly"
+	}
+	if pr["t1"] != 1 || pr["t2"] != 1 || sv["t1"] != 1 {
+		return fmt.Sprintf("processor queue full while two peers deliver the same transaction: processed %v saved %v, want each once (t1 also saved once)", pr, sv)
+	}
+	return ""
+}
+
 func txmcMain(args []string) int {
 	fs := flag.NewFlagSet("txmc", flag.ExitOnError)
 	seed := fs.Int64("seed", 1, "seed")
@@ -389,7 +459,18 @@ func txmcMain(args []string) int {
 	ntxs := fs.Int("txs", 2, "transactions")
 	out := fs.String("out", "", "output ndjson")
 	retry := fs.Bool("retry", false, "phased traces that exercise retry polls with small limits")
+	backlog := fs.Int("backlog", 0, "instead: this many backlog scenarios (full processor queue); prints one JSON object")
 	fs.Parse(args)
+	if *backlog > 0 {
+		problems := map[string]int{}
+		for i := 0; i < *backlog; i++ {
+			if m := txmBacklog(*seed*7919 + int64(i)); m != "" {
+				problems[m]++
+			}
+		}
+		json.NewEncoder(os.Stdout).Encode(map[string]interface{}{"scenarios": *backlog, "problems": problems})
+		return 0
+	}
 	rng := rand.New(rand.NewSource(*seed))
 	f := os.Stdout
 	if *out != "" {
